@@ -296,6 +296,9 @@ def c08_exec(plan):
                     other, od = H[j], {"handle": j}
                 else:
                     other, od = s["int"], {"int": s["int"]}
+                osz = other.size if isinstance(other, Bits) else int(other).bit_length()
+                if H[i].size + osz > 8192:
+                    raise _Skip()          # keep concatenation chains bounded
                 ev["a"] = {"h": i, "other": od, "dst": s["dst"]}
                 r = H[i] // other
                 H[s["dst"]] = r
